@@ -103,6 +103,10 @@ pub struct WriterRig {
   wait_receiver: Option<StatusChannelReceiver<()>>,
   wait_completed: bool,
   pub guid: [u8; 16],
+  // receive path of the participant owning the writer: MessageReceiver -> acknack channel
+  mr: crate::rtps::message_receiver::MessageReceiver,
+  acknack_receiver: mio_channel::Receiver<(GuidPrefix, AckSubmessage)>,
+  _spdp_liveness_receiver: mio_channel::Receiver<GuidPrefix>,
 }
 
 impl WriterRig {
@@ -132,7 +136,20 @@ impl WriterRig {
     if let Some(fs) = cfg.frag_size {
       writer.data_max_size_serialized = fs;
     }
+    let (acknack_sender, acknack_receiver) =
+      mio_channel::sync_channel::<(GuidPrefix, AckSubmessage)>(1024);
+    let (spdp_liveness_sender, spdp_liveness_receiver) =
+      mio_channel::sync_channel::<GuidPrefix>(16);
+    let mr = crate::rtps::message_receiver::MessageReceiver::new(
+      guid_from_bytes(guid).prefix,
+      acknack_sender,
+      spdp_liveness_sender,
+      None,
+    );
     Self {
+      mr,
+      acknack_receiver,
+      _spdp_liveness_receiver: spdp_liveness_receiver,
       writer,
       cmd_sender,
       status_receiver,
@@ -268,6 +285,23 @@ impl WriterRig {
           }
           _ => {}
         }
+      }
+    }
+    net::capture_take()
+  }
+
+  /// A datagram arrives at the participant that owns the writer: real
+  /// `MessageReceiver::handle_received_packet`, then what
+  /// `DPEventLoop::handle_writer_acknack_action` does with the acknack channel.
+  pub fn receive(&mut self, datagram: &[u8]) -> Vec<net::Sent> {
+    self.begin();
+    self
+      .mr
+      .handle_received_packet(&bytes::Bytes::copy_from_slice(datagram));
+    let my_eid = guid_from_bytes(self.guid).entity_id;
+    while let Ok((prefix, sub)) = self.acknack_receiver.try_recv() {
+      if sub.writer_id() == my_eid && self.writer.is_reliable() {
+        self.writer.handle_ack_nack(prefix, &sub);
       }
     }
     net::capture_take()
